@@ -77,6 +77,30 @@ def check_sampler(res, c):
     cl = m.clone()
     for path, a, b in snapshot.diff(S_syn["module"], build.norm_module(snapshot.snap_module(cl, "synth"), "after"))[:3]:
         res.violation(f"C16:clone:{snapshot.field_key(path)}", f"{path}: original {a}, clone {b}", desc)
+    # a save that fails part-way through the instrument record (a field that does not fit its documented width), the field put
+    # right, saved again: the bytes of the first good save
+    for field, bad in (("volume_old", 300), ("ins_finetune", 999), ("editor_cursor", 2 ** 40), ("ins_relative_note", -500), ("max_version", -1))[c.index % 5:][:2]:
+        good = getattr(m, field)
+        try:
+            setattr(m, field, bad)
+        except Exception:
+            continue
+        failed = False
+        try:
+            api.Synth(m).read()
+        except Exception:
+            failed = True
+        setattr(m, field, good)
+        res.count("failed_record_saves" if failed else "oversized_record_fields_accepted")
+        try:
+            again = api.Synth(m).read()
+        except Exception as e:
+            res.violation(f"C16:save-raises-after-repair:{workload.exc_key(e)}", f"after a save that failed on {field} = {bad} and the field was put right, saving raised {e!r}", dict(desc, field=field))
+            break
+        if again != raw:
+            res.violation(f"C16:save-after-failed-save:{field}", f"a save failed on {field} = {bad}; with the field put right the sampler saves {len(again)} bytes that differ from the {len(raw)} "
+                                                                 f"it saved before", dict(desc, field=field))
+            break
     import copy as _copy
     import pickle as _pickle
     how = ("pickle", "deepcopy", "copy")[c.index % 3]
@@ -270,6 +294,30 @@ def check_legacy(res, chunks, rng, k):
     if raw_twin != raw2:
         res.violation(f"C16:copied-instrument:{how}", f"{kind}: a {how} copy of the loaded instrument saves {len(raw_twin)} bytes, the instrument itself {len(raw2)}", dict(desc, copy=how))
         return
+    # the application moves the loaded legacy instrument to the current layout (is_legacy = False), edits it and saves: the edits
+    # are in the file
+    try:
+        o4 = workload.load(raw)
+        mod4 = o4.module
+        if mod4.is_legacy:
+            mod4.is_legacy = False
+            mod4.vibrato_depth = (mod4.vibrato_depth + 77) % 256
+            mod4.volume_fadeout = (mod4.volume_fadeout + 1234) % 8193
+            s_new = mod4.Sample()
+            s_new.data, s_new.format, s_new.channels = b"\x01\x02\x03\x04", mod4.Format.int8, mod4.Channels.mono
+            free_slot = next(i for i in range(127, -1, -1) if mod4.samples[i] is None)
+            mod4.samples[free_slot] = s_new
+            want4 = (mod4.vibrato_depth, mod4.volume_fadeout, free_slot)
+            back4 = workload.load(o4.read()).module
+            res.count("legacy_instruments_moved_to_current_layout")
+            got4 = (back4.vibrato_depth, back4.volume_fadeout, free_slot if back4.samples[free_slot] is not None and bytes(back4.samples[free_slot].data) == b"\x01\x02\x03\x04" else None)
+            if got4 != want4:
+                res.violation("C16:legacy-moved-to-current-layout", f"{kind}: is_legacy set to False, edited (vibrato_depth, volume_fadeout, new sample in slot {free_slot}) = {want4}; "
+                                                                    f"after save/load {got4}", desc)
+                return
+    except Exception as e:
+        res.count("legacy_move_unusable")
+        res.hist("legacy_move_unusable_why", workload.exc_key(e))
     S2 = snapshot.snap_synth(o2)
     # version stamps are not instrument data (the legacy replay re-emits the embedded effect's original stamp)
     d = [x for x in snapshot.diff(build.norm(S1, "before"), build.norm(S2, "after"), limit=40) if not x[0].endswith("/file_version")]
